@@ -341,14 +341,6 @@ prnt(3, 1, 0, 0, 0, {"C04": T, "C01": T}, sb=0, opt=PR_OPT_NOSTEP)
 prnt(2, 2, 1, 0, 1, {"C04": T, "C01": T}, sb=2, limit="None", alt=0, opt=PR_OPT_NOSTEP + ["insert mode in the middle of the row"], suffix="_sb2")
 
 
-def rep(cols, rows, row, top, bottom, n, props, sb=0, alt=0, mem=24):
-    kw = dict(sb=sb, alt=alt, limit="None", crow=row, top=top, bottom=bottom)
-    inst("rep__%dx%d_r%d_m%d%d_n%d" % (cols, rows, row, top, bottom, n), "terminal", "t_rep(%s, %d)" % (tcfg(cols, rows, **kw), n),
-         max(cols, rows + sb + 3) + 3, props, mem=mem, timeout=1500, stubs=[ROTATE_STUB],
-         desc="REP %d on a terminal == %d x Print(character left of the cursor) on a field-by-field copy: cells, marks, cursor, lines().len(), changed rows" % (n, max(n, 1)),
-         bounds=geo_desc(cols, rows, **kw))
-
-
 prnt(3, 3, 2, 0, 2, {"C04": Q, "C01": T}, rep=True, opt=PR_OPT_NOSTEP)
 prnt(3, 3, 1, 1, 2, {"C04": T}, rep=True, opt=PR_OPT_NOSCROLL, suffix="_n1")
 prnt(3, 3, 1, 0, 1, {"C04": T}, rep=True, opt=PR_OPT_NOSTEP)
